@@ -120,6 +120,41 @@ def step (_ : Unit) (toks : List String) (rhs : String) : Unit × Verdict :=
         | none => ((), .bad "solve rhs")
       | none, _ => ((), .diff "ok,<solution>")
     | _, _, _, _, _, _, _, _, _ => ((), .bad "solve args")
+  | ["rsolve", diff, exp, subj, nonce, alg, sol0, maxD, before, dgBefore, nowLo, nowHi, after, dgAfter] =>
+    -- `Solve` on a stamp that may already carry a solution `sol0` (still valid, stale after a parameter change, foreign).
+    -- `before`/`after` = real String() before/after the call with their real SHA-256 digests; nowLo/nowHi = wall clock
+    -- around the call (the early return of `Solve` runs `Verify`, which reads the clock).
+    match diff.toNat?, parseExpTok exp, hexToBytes subj, hexToBytes nonce, hexToBytes alg, hexToBytes sol0, maxD.toNat? with
+    | some diff, some exp, some subj, some nonce, some alg, some sol0, some maxD =>
+      match hexToBytes before, hexToBytes dgBefore, nowLo.toInt?, nowHi.toInt?, hexToBytes after, hexToBytes dgAfter with
+      | some before, some dgBefore, some nowLo, some nowHi, some after, some dgAfter =>
+        let h : Hashcash := { difficulty := diff, expiresAt := exp, subject := subj, nonce := nonce, alg := alg, solution := sol0 }
+        if toStr h ≠ before then ((), .diff ("string," ++ bytesToHex (toStr h))) else
+        let implSol : Option Bytes := match rhs.splitOn "," with
+          | ["ok", s] => hexToBytes s
+          | _ => none
+        match implSol with
+        | some sol =>
+          -- statement: what the solver returns is accepted, so the stamp it leaves behind must have the bits
+          if ¬ diff ≤ leadingZeroBits dgAfter then
+            ((), .spec s!"solver returned a stamp with only {leadingZeroBits dgAfter} leading zero bits (difficulty {diff}, previous solution {if sol0 = [] then "absent" else "present"})")
+          else
+          -- model `solve` with the real digests as `sha` and the implementation's answer as the only candidate of the search
+          let sha : Bytes → Bytes := fun s => if s = before then dgBefore else if s = after then dgAfter else []
+          let tok : Except SolveErr Hashcash → String
+            | .ok h' => if toStr h' = after then "ok," ++ bytesToHex h'.solution else "string," ++ bytesToHex (toStr h')
+            | .error .alg => "err,alg" | .error .difficulty => "err,difficulty"
+            | .error .exhausted => "ok,<another solution: the returned one does not pass the bit test on the stamp without the old solution>"
+          let mLo : String := tok (solve sha (fun _ => sol) h maxD nowLo 1)
+          let mHi : String := tok (solve sha (fun _ => sol) h maxD nowHi 1)
+          if mLo == mHi && mLo != rhs then ((), .diff mLo) else ((), .ok)
+        | none =>
+          let m : String :=
+            if alg ≠ algSHA256 then "err,alg"
+            else if diff > maxD ∨ diff > maxDifficulty then "err,difficulty" else "ok,<solution>"
+          if m ≠ rhs then ((), .diff m) else ((), .ok)
+      | _, _, _, _, _, _ => ((), .bad "rsolve args")
+    | _, _, _, _, _, _, _ => ((), .bad "rsolve args")
   | _ => ((), .bad "unknown op")
 
 def main : IO Unit := runLoop () step
